@@ -26,7 +26,9 @@
 //! restart equal (signer restored from the committed store == running signer, durable view),
 //! nmuts (mutations prepare() returned, summed over the request's messages),
 //! crash (a signer restored from the local store as it was BEFORE commit equals the PRE-request signer, and one
-//! restored from that store plus the prepared mutations equals the running signer after the request)].
+//! restored from that store plus the prepared mutations equals the running signer after the request; where these
+//! stores are byte-identical to the pre-request / the committed store the comparison is the restart observation
+//! of the pre- / post-state and is not repeated)].
 //!
 //!   nhand explore --alphabet FILE --out DIR [--threads 16] [--max-states N] [--max-chans 2] [--approver positive|negative]
 //!   nhand path --requests FILE [--approver ..]
@@ -178,6 +180,8 @@ fn withdrawal_msg(fx: &NodeFx, inp: &str, fund: u64) -> Option<Message> {
         }
     }
     let keyindex = match t.ipaths[0].into_iter().next() {
+        // (probing only, not in Node.tla's alphabet: a p2wpkh input with the wrong key index)
+        _ if inp == "badwpkh" => 2,
         Some(ChildNumber::Normal { index }) => *index,
         _ => 0,
     };
@@ -215,7 +219,8 @@ fn run_msg<H: Handler>(n: &N, handler: &H, msg: Message) -> MsgOut {
             // the signer process dies here: nothing is prepared or committed
             let local_before = n.local();
             let muts = catch(|| cloud.prepare()).map(|m| m.into_iter().map(|(k, (ver, val))| (k, ver, val)).collect::<Kvvs>()).unwrap_or_default();
-            MsgOut { ok: false, flag: -1, err: format!("PANIC: {}", p), panicked: true, nmuts: muts.len(),
+            // (the keys staged when it died are kept for the details record; none of them is sent or committed)
+            MsgOut { ok: false, flag: -1, err: format!("PANIC: {}", p), panicked: true, nmuts: 0,
                      keys: muts.iter().map(|m| m.0.clone()).collect(), local_before, prepared: vec![] }
         }
         Ok(r) => {
@@ -332,7 +337,7 @@ fn step(mut n: N, r: &Value, judge: bool) -> (N, Outcome) {
             Some(x) => x,
             None => break,
         };
-        let pre_durable = if judge { Some(durable(&n.fx)) } else { None };
+        let pre_durable = if judge { Some((durable(&n.fx), n.local())) } else { None };
         let m = match chan {
             Some(d) => run_msg(&n, &n.chan_handler(d), msg),
             None => run_msg(&n, &n.root, msg),
@@ -340,29 +345,31 @@ fn step(mut n: N, r: &Value, judge: bool) -> (N, Outcome) {
         out.nmsgs += 1;
         out.nmuts += m.nmuts;
         out.keys.extend(m.keys.iter().cloned());
-        if m.panicked {
-            // rebuild: a panic may have poisoned locks; the store is what a restarted process finds
-            let d = m.local_before.clone();
-            if let Some(pre) = &pre_durable {
-                if !diff_restored(&n, &d, pre, "crash-pre", &mut out.crash_diff) {
-                    out.crash = false;
-                }
-            }
-            let fx2 = n.fx.restore_from(&d).expect("restore after a panic");
-            n = N::on(fx2);
-        } else if let Some(pre) = &pre_durable {
-            // crash between prepare and commit, the cloud never got the mutations: the pre-request signer
-            if !diff_restored(&n, &m.local_before, pre, "crash-pre", &mut out.crash_diff) {
+        // Crash observations.  The local store before commit normally IS the pre-request store, and that store plus
+        // the prepared mutations IS the committed store: then the two restores would repeat the restart observations of
+        // the pre-state (r0) and of the post-state (restart equal) and are skipped.  They are made when the stores
+        // differ, i.e. when something was written past the transaction log or commit wrote something else than
+        // prepare() reported.
+        if let Some((pre, pre_local)) = &pre_durable {
+            if m.local_before != *pre_local && !diff_restored(&n, &m.local_before, pre, "crash-pre", &mut out.crash_diff) {
                 out.crash = false;
             }
-            // ... the cloud did get them: the signer as it is now
+        }
+        if m.panicked {
+            // rebuild: a panic may have poisoned locks; the store is what a restarted process finds
+            let fx2 = n.fx.restore_from(&m.local_before).expect("restore after a panic");
+            n = N::on(fx2);
+        } else if pre_durable.is_some() {
+            // the cloud did get the mutations before the crash: the signer as it is now
             let mut merged: HashMap<String, (u64, Vec<u8>)> = m.local_before.iter().cloned().map(|(k, v, x)| (k, (v, x))).collect();
             for (k, v, x) in m.prepared.iter().cloned() {
                 merged.insert(k, (v, x));
             }
             let mut mv: Kvvs = merged.into_iter().map(|(k, (v, x))| (k, v, x)).collect();
             mv.sort();
-            if !diff_restored(&n, &mv, &durable(&n.fx), "crash-cloud", &mut out.crash_diff) {
+            let mut committed = n.local();
+            committed.sort();
+            if mv != committed && !diff_restored(&n, &mv, &durable(&n.fx), "crash-cloud", &mut out.crash_diff) {
                 out.crash = false;
             }
         }
